@@ -654,8 +654,9 @@ pub enum Sink {
     TryTrusted(Container),
     /// `try_collect_vec1::<C>`
     TryPlain(Container),
-    /// `write` into an uninitialised caller buffer of length `len`
-    Write { buf: BufKind, len: usize },
+    /// `write` into an uninitialised caller buffer of length `len` (`slack`: extra capacity the
+    /// caller's Vec-backed buffer happens to have)
+    Write { buf: BufKind, len: usize, slack: usize },
 }
 
 impl Sink {
@@ -693,10 +694,11 @@ impl Sink {
             Sink::OptCollect(c) => J::obj(vec![("k", J::s("opt_collect")), ("c", J::s(c.name()))]),
             Sink::TryTrusted(c) => J::obj(vec![("k", J::s("try_trusted")), ("c", J::s(c.name()))]),
             Sink::TryPlain(c) => J::obj(vec![("k", J::s("try_plain")), ("c", J::s(c.name()))]),
-            Sink::Write { buf, len } => J::obj(vec![
+            Sink::Write { buf, len, slack } => J::obj(vec![
                 ("k", J::s("write")),
                 ("buf", J::s(buf.name())),
                 ("len", J::Int(*len as i64)),
+                ("slack", J::Int(*slack as i64)),
             ]),
         }
     }
@@ -715,6 +717,7 @@ impl Sink {
             "write" => Sink::Write {
                 buf: BufKind::parse(j.req("buf")?.as_str()?)?,
                 len: j.req("len")?.as_usize()?,
+                slack: j.get("slack").map(|v| v.as_usize()).transpose()?.unwrap_or(0),
             },
             _ => return Err(format!("bad sink {k}")),
         })
@@ -860,6 +863,8 @@ pub struct Roll {
     /// 4 rolling_custom, 5 rolling2_custom, 6.. selected ts_* functions
     pub driver: u8,
     pub window: usize,
+    /// two-series drivers: the second series has `len + other_delta` items (clamped at 0)
+    pub other_delta: i64,
     pub out: Container,
 }
 
@@ -916,6 +921,7 @@ impl Program {
                 ("backend", r.backend.to_j()),
                 ("driver", J::Int(r.driver as i64)),
                 ("window", J::Int(r.window as i64)),
+                ("other_delta", J::Int(r.other_delta)),
                 ("out", J::s(r.out.name())),
             ]),
         }
@@ -971,6 +977,7 @@ impl Program {
                 backend: Backend::from_j(j.req("backend")?)?,
                 driver: j.req("driver")?.as_i64()? as u8,
                 window: j.req("window")?.as_usize()?,
+                other_delta: j.get("other_delta").map(|v| v.as_i64()).transpose()?.unwrap_or(0),
                 out: Container::parse(j.req("out")?.as_str()?)?,
             })),
             _ => Err(format!("bad program kind {kind}")),
